@@ -340,6 +340,7 @@ Definition adm_splice (c : cfg) (w : world) (vid : nat) (sb eb : bound) (n : N) 
 Definition admissible (c : cfg) (w : world) (o : op) : Prop :=
   match o with
   | OSplice _ v sb eb _ _ _ _ _ cl => adm_splice c w v sb eb cl
+  | OSpareWrite _ v k => forall vv, get_vec v w = Some vv -> vlen vv + k <= vcap vv
   | OWithCapacity _ bk n => adm_withcap c bk n
   | OPush _ v _ | OInsert _ v _ _ => adm_vec c w v
   | OPop _ _ k | ORemove _ _ _ k | OSwapRemove _ _ _ k => forall d, In d (sink_dsts k) -> adm_vec c w d
